@@ -221,19 +221,22 @@ def run(ctx):
         "rule": "cases = operation sequences (insert/delete/clear) run on the real IntervalBST with the complete tree "
                 "(items, stored max, stored height) compared with the Coq model after every step; exhaustive over all "
                 "sequences up to the stated length on coordinates 0..2 incl. inverted intervals, then seeded random dense "
-                "sequences and pairwise-disjoint streams with every query in range; non-trivial = distinct sequence whose "
-                "tree reached height >= 3 (rotations exercised)",
+                "sequences and pairwise-disjoint streams with every query in range, then extreme bounds (MinInt..MaxInt pool: "
+                "all one- and two-step histories over every (lo,hi) pair, random and disjoint short histories, every ordered "
+                "pair of pool values as query incl. inverted queries); a seeded sample of the recorded cases is re-evaluated "
+                "inside Coq by vm_compute; non-trivial = distinct sequence whose tree reached height >= 3 (rotations exercised)",
         "distribution": summ["hist"],
         "model_mismatches": mism,
         "property_predicate_failures": sorted(summ["propfail"]),
         "samples": samples,
         "exhaustive": False,
         "trusted_base": [
-            "Coq 8.16.1 kernel (coqc; coqchk in the thorough tier); vm_compute not used in C19 proofs",
+            "Coq 8.16.1 kernel (coqc; coqchk in the thorough tier); vm_compute only in the closed witnesses (query_hypotheses_satisfiable, *_refuted) and in the cross-check of recorded cases, not in the for-all theorems",
             "axioms: none (Print Assumptions: Closed under the global context)" if not status["axioms"] else "axioms: " + ", ".join(status["axioms"]),
             "extraction (ExtrOcamlBasic only, no Extract Constant/Inductive of our own) + OCaml 4.13.1 + props/C19/driver/c19_driver.ml (zarith for decimal I/O)",
             "Go overlay harness props/C19/overlay/verif_c19_test.go (generators, shape printer, brute-force property predicates)",
-            "model coq/C19/Model.v is a hand-written restatement of internal/interval_bst.go; tied by the shape-level correspondence above; Go int modelled as unbounded Z",
+            "model coq/C19/Model.v is a hand-written restatement of internal/interval_bst.go; tied by the shape-level correspondence above; Go int modelled as unbounded Z (the code only compares and copies bounds; extreme-bounds stream exercises the ends of the int range)",
+            "coq/C19/Spec.v (meaning of spec/contents/overlaps/every_node ...) and coq/C19/ModelChk.v (where the Go code would dereference nil) are definitions to be read, not checked against the code",
         ],
     })
     ctx.assumptions = ["Go int arithmetic does not overflow inside the tree (only comparisons/copies of bounds; heights < 64)"]
